@@ -5,6 +5,8 @@ package main
 import (
 	"fmt"
 	"os"
+	"path/filepath"
+	"runtime"
 	"time"
 	"go/constant"
 	"go/token"
@@ -2161,7 +2163,12 @@ func (e *Engine) guarded(st *State, f func() []Exit) (out []Exit) {
 		if r := recover(); r != nil {
 			ee, ok := r.(engineError)
 			if !ok {
-				panic(r)
+				// an internal failure of the engine (unsupported shape of code) is an engine error on this
+				// path, not a crash of the whole run
+				if os.Getenv("VCGO_PANIC") != "" {
+					panic(r)
+				}
+				ee = engineError{msg: fmt.Sprintf("internal engine failure: %v (%s)", r, panicSite())}
 			}
 			if e.unsatisfiable(hyps) {
 				if os.Getenv("VCGO_TRACE") != "" {
@@ -2187,4 +2194,21 @@ func (e *Engine) unsatisfiable(hyps []*Term) bool {
 	q := &Query{Name: fmt.Sprintf("feas_%s_%d", e.curFunc, e.varN), Hyps: hs, Goal: tFalse}
 	r := solve(q, 2)
 	return r.Status == "unsat"
+}
+
+// panicSite: the innermost engine frame of the panic being recovered.
+func panicSite() string {
+	pcs := make([]uintptr, 32)
+	n := runtime.Callers(3, pcs)
+	fr := runtime.CallersFrames(pcs[:n])
+	for {
+		f, more := fr.Next()
+		if strings.Contains(f.File, "/vcgo/") && !strings.Contains(f.Function, "guarded") && !strings.Contains(f.Function, "panicSite") {
+			return fmt.Sprintf("%s:%d", filepath.Base(f.File), f.Line)
+		}
+		if !more {
+			break
+		}
+	}
+	return "?"
 }
